@@ -334,8 +334,13 @@ def impl_relations(res, rng, n_pts, n_chain, n_lim, n_arb, n_simple):
             except Exception as e:   # noqa
                 R.bad(W_ERR, function='pf_arbitrary_load', observed=repr(e), grid_points=n, **p)
                 continue
-            if not abs(v - exp) <= bound or not 0.0 <= v <= 1.0 + 1e-9:
-                R.bad(W_ARB if 0.0 <= v <= 1.0 + 1e-9 else W_RANGE, observed=v, expected=exp, tolerance=bound, grid_points=n, half_width_in_load_std=9.0,
+            # range: theorem pf_arbitrary_model_bounds -- between 0 and the trapezoid sum of the sampled density itself
+            # (that sum is the discrete total probability; it exceeds 1 by the discretisation error on coarse random grids)
+            total = float(np.sum(np.diff(x) * (pdf[1:] + pdf[:-1]) / 2.0))
+            in_range = 0.0 <= v <= total * (1 + 1e-12) + 1e-300
+            if not abs(v - exp) <= bound or not in_range:
+                R.bad(W_ARB if in_range else W_RANGE, function='pf_arbitrary_load', observed=v, expected=exp, tolerance=bound, density_total=total,
+                      grid_points=n, half_width_in_load_std=9.0,
                       grid='uniform' if grid_rng is None else 'random (stored seed, replayed by the check)', **p)
     return R
 
@@ -403,6 +408,17 @@ def certificates(res, rng, n_norm, n_simple, n_arb):
 
 # --------------------------------------------------------------------------- run / replay
 
+def run_certs_retry(name, req, unfolds, goals, **kw):
+    """cert.run_certs; goals that failed without a Coq error message (coqc killed / out of memory on an overloaded
+    machine: an infrastructure failure, not a result) are retried once."""
+    ok, bad, log = cert.run_certs(name, req, unfolds, goals, **kw)
+    if bad and 'Error' not in log and 'CERT-BAD' not in log:
+        ok2, bad2, log2 = cert.run_certs(name + 'retry', req, unfolds, [goals[i] for i in bad], **kw)
+        ok = sorted(set(ok) | {bad[i] for i in ok2})
+        bad, log = [bad[i] for i in bad2], log + log2
+    return ok, bad, log
+
+
 def register(res):
     res.classes['quad-absolute-tolerance'] = k_abs_tolerance
     res.classes['strength-step-missed'] = k_step_missed
@@ -431,7 +447,7 @@ def run(res):
                        'P_f lies in [1e-12, 1-1e-12]')
     proofs_ok = common.standard_proof_stage(res, 'C15', extra_targets=['theories/Common/Cert.vo', 'theories/Strength/C15Cert.vo'], gen_fn=lambda: gen_specs.generate(GEN))
     # D2 first (cheap, and it is the failing-input search): the relations on the implementation
-    n_pts, n_chain, n_lim, n_arb, n_simple = (400, 60, 25, 12, 60) if quick else (4000, 500, 200, 80, 500)
+    n_pts, n_chain, n_lim, n_arb, n_simple = (400, 60, 25, 12, 60) if quick else (3000, 400, 150, 60, 400)
     R = impl_relations(res, res.rng, n_pts, n_chain, n_lim, n_arb, n_simple)
     res.add_cases(R.n, nontrivial=len(R.nontrivial))
     res.cov['impl_relation_evaluations'] = R.n
@@ -448,15 +464,11 @@ def run(res):
     # D1: certificates (need the compiled theories)
     if proofs_ok:
         try:
-            n_norm, n_s, n_a = (28, 8, 4) if quick else (400, 60, 30)
+            n_norm, n_s, n_a = (28, 8, 4) if quick else (300, 40, 20)
             goals, descr, ag, ad, skipped = certificates(res, res.rng, n_norm, n_s, n_a)
-            nshard = max(2, common.NCPU - 2)
-            from concurrent.futures import ThreadPoolExecutor
-            with ThreadPoolExecutor(max_workers=2) as ex:      # the two families of goals are compiled concurrently
-                f1 = ex.submit(cert.run_certs, 'C15', REQ, UNFOLD, goals, chunk=max(1, -(-len(goals) // nshard)), timeout=1500, final_tac=INTEGRAL)
-                f2 = ex.submit(cert.run_certs, 'C15arb', REQ, [], ag, chunk=max(1, -(-len(ag) // 4)), timeout=1500, extra_tac=ARB_UNFOLD, final_tac=ARB_FINAL)
-                ok, bad, log = f1.result()
-                ok2, bad2, log2 = f2.result()
+            nshard = max(1, common.NCPU)        # never more than NCPU coqc processes at a time
+            ok, bad, log = run_certs_retry('C15', REQ, UNFOLD, goals, chunk=max(1, -(-len(goals) // nshard)), timeout=1500, final_tac=INTEGRAL)
+            ok2, bad2, log2 = run_certs_retry('C15arb', REQ, [], ag, chunk=max(1, -(-len(ag) // nshard)), timeout=1500, extra_tac=ARB_UNFOLD, final_tac=ARB_FINAL)
             oks = set(ok) | {len(goals) + i for i in ok2}
             bad = list(bad) + [len(goals) + i for i in bad2]
             goals, descr, log = goals + ag, descr + ad, log + log2
